@@ -45,8 +45,19 @@ _ORDER_LOOP = {
         invariants={
             "order": "order == notdef_head(font.keyset) + firsts(glyphOrder, without_notdef(font.keyset), i)",
             "names": "names == without_notdef(font.keyset) - elems_upto(glyphOrder, i)",
+            # "each exported glyph exactly once", directly on the loop: `order` and `names` partition the glyph names
+            "members": "all(order[k] in font.keyset and order[k] not in names for k in range(len(order)))",
+            "distinct": "distinct(order)",
+            "covered": "all(x in names or x in order for x in font.keyset)",
         },
     )
+}
+# each exported glyph exactly once: no name twice, only glyph names, every glyph name  (`sorted` of the remaining names contributes
+# exactly those names, once each: the trusted axioms of sorting, `sorted_axioms=True`)
+_EACH_ONCE = {
+    "no-name-twice": "distinct(result)",
+    "only-glyph-names": "all(result[k] in font.keyset for k in range(len(result)))",
+    "every-glyph-name": "all(x in result for x in font.keyset)",
 }
 
 contract(
@@ -56,10 +67,11 @@ contract(
     params={"font": Ref("GlyphMap"), "glyphOrder": Opt(List(STR))},
     returns=List(STR),
     requires=["glyphOrder is not None"],
-    ensures={"order": "result == official_order(font.keyset, glyphOrder)"},
-    canaries={"shifted": "result == official_order(font.keyset, glyphOrder) + ['x']"},
+    ensures={"order": "result == official_order(font.keyset, glyphOrder)", **_EACH_ONCE},
+    canaries={"shifted": "result == official_order(font.keyset, glyphOrder) + ['x']", "nothing-exported": "len(result) == 0"},
     loops=_ORDER_LOOP,
     locals={"order": List(STR), "names": Set(STR)},
+    sorted_axioms=True,
 )
 
 contract(
@@ -68,10 +80,11 @@ contract(
     props=["C03"],
     params={"font": Ref("GlyphMap"), "glyphOrder": Const(None)},
     returns=List(STR),
-    ensures={"order": "result == official_order(font.keyset, font.glyphOrder)"},
+    ensures={"order": "result == official_order(font.keyset, font.glyphOrder)", **_EACH_ONCE},
     canaries={"shifted": "result == official_order(font.keyset, font.glyphOrder) + ['x']"},
     loops=_ORDER_LOOP,
     locals={"order": List(STR), "names": Set(STR), "glyphOrder": List(STR)},
+    sorted_axioms=True,
 )
 
 contract(
@@ -80,9 +93,10 @@ contract(
     props=["C03"],
     params={"font": Ref("GlyphDict"), "glyphOrder": Const(None)},
     returns=List(STR),
-    ensures={"order": "result == official_order(font.keyset, [])"},
+    ensures={"order": "result == official_order(font.keyset, [])", **_EACH_ONCE},
     canaries={"shifted": "len(result) == 0"},
     locals={"order": List(STR), "names": Set(STR)},
+    sorted_axioms=True,
 )
 
 
